@@ -4,16 +4,18 @@ use syn::{spanned::Spanned, Data, DeriveInput, Expr, Lit, UnOp};
 pub(crate) fn discriminants_from_ast(ast: &DeriveInput) -> syn::Result<Vec<i128>> {
     if let Data::Enum(data) = &ast.data {
         let mut values = Vec::with_capacity(data.variants.len());
-        let mut counter = 0i128;
+        // the value of the next variant; `None` after `i128::MAX`
+        let mut counter = Some(0i128);
 
         for variant in data.variants.iter() {
             if let Some((_, exp)) = variant.discriminant.as_ref() {
                 match exp {
                     Expr::Lit(lit) => {
                         if let Lit::Int(lit) = &lit.lit {
-                            counter = lit
-                                .base10_parse()
-                                .map_err(|error| syn::Error::new(lit.span(), error))?;
+                            counter = Some(
+                                lit.base10_parse()
+                                    .map_err(|error| syn::Error::new(lit.span(), error))?,
+                            );
                         } else {
                             return Err(syn::Error::new(lit.span(), "not an integer"));
                         }
@@ -24,14 +26,14 @@ pub(crate) fn discriminants_from_ast(ast: &DeriveInput) -> syn::Result<Vec<i128>
                                 if let Lit::Int(lit) = &lit.lit {
                                     match lit.base10_parse::<i128>() {
                                         Ok(i) => {
-                                            counter = -i;
+                                            counter = Some(-i);
                                         },
                                         Err(error) => {
                                             // overflow
                                             if lit.base10_digits()
                                                 == "170141183460469231731687303715884105728"
                                             {
-                                                counter = i128::MIN;
+                                                counter = Some(i128::MIN);
                                             } else {
                                                 return Err(syn::Error::new(lit.span(), error));
                                             }
@@ -57,9 +59,16 @@ pub(crate) fn discriminants_from_ast(ast: &DeriveInput) -> syn::Result<Vec<i128>
                 }
             }
 
-            values.push(counter);
+            let value = counter.ok_or_else(|| {
+                syn::Error::new(
+                    variant.span(),
+                    "the discriminant value is too large to fit in `i128`",
+                )
+            })?;
 
-            counter = counter.saturating_add(1);
+            values.push(value);
+
+            counter = value.checked_add(1);
         }
 
         Ok(values)
